@@ -5,6 +5,8 @@ from . import common as C
 from . import dense_common as DC
 from . import merge_common as M
 from . import alf_common as A
+from . import dataset as D
+from fractions import Fraction
 
 PID = 'C13'
 PARALLEL = True
@@ -30,7 +32,56 @@ FAMILIES = ('spikes', 'clusters', 'templates', 'channels')
 SUBSET = ('_phy_spikes_subset.spikes.npy', '_phy_spikes_subset.channels.npy', '_phy_spikes_subset.waveforms.npy')
 
 
+def _run_twice(case):
+    """ONE EphysAlfCreator converts the same loaded model several times (case['twice'] = [(label, ampfactor), ...]);
+    the last output directory is compared, object file by object file, with the output of a freshly loaded model
+    converted once with the arguments of the last conversion."""
+    from phylib.io.alf import EphysAlfCreator
+    from phylib.io.model import load_model
+    with C.scratch_dir() as d:
+        src = d / 'src'
+        params = D.write_dataset(src, case['spec'])
+        load_model(params).close()
+        runs = [tuple(x) for x in case['twice']]
+        m = load_model(params)
+        try:
+            creator = EphysAlfCreator(m)
+            for k, (label, f) in enumerate(runs):
+                np.random.seed(case.get('rs', 0))
+                m2 = creator.convert(d / ('out%d' % k), label=label, ampfactor=f)
+                if m2 is not None:
+                    m2.close()
+        finally:
+            m.close()
+        label, f = runs[-1]
+        m = load_model(params)
+        try:
+            np.random.seed(case.get('rs', 0))
+            m2 = EphysAlfCreator(m).convert(d / 'ref', label=label, ampfactor=f)
+            if m2 is not None:
+                m2.close()
+        finally:
+            m.close()
+        last, ref = d / ('out%d' % (len(runs) - 1)), d / 'ref'
+        names = sorted(p.name for p in ref.iterdir() if p.name.split('.')[0] in FAMILIES)
+        diff = [n for n in sorted(p.name for p in last.iterdir() if p.name.split('.')[0] in FAMILIES) if n not in names]
+        for n in names:
+            if not (last / n).exists():
+                diff.append(n)
+            elif n.endswith('.npy'):
+                a, b = np.load(last / n), np.load(ref / n)
+                if a.dtype != b.dtype or a.shape != b.shape or not np.array_equal(a, b, equal_nan=a.dtype.kind == 'f'):
+                    diff.append(n)
+        return dict(twice_diff=diff, n_files=len(names))
+
+
 def impl(case):
+    if case.get('twice'):
+        return _run_twice(case)
+    return _impl_once(case)
+
+
+def _impl_once(case):
     """One real conversion (alf_common.run_export). The three listings run_export takes of the source directory
     (before, after the refused same-directory attempts, after the conversion) are recorded here, the first one together
     with the first dimensions of the source arrays: this is the source directory the Lean model starts from."""
@@ -94,6 +145,8 @@ def _ood_query(case):
 
 
 def model_query(case, impl_res):
+    if case.get('twice'):
+        return dict(p=PID, op='multi', qs=[])
     if case.get('ood'):
         return dict(p=PID, op='multi', qs=[_ood_query(case)])
     if 'ok' not in impl_res:
@@ -101,9 +154,16 @@ def model_query(case, impl_res):
     ok = impl_res['ok']
     sm = ok['src_model']
     ls = ok['listings']
-    view = dict(rate=DC.frac(sm['sample_rate']), n_amplitudes=len(sm['amplitudes']), samples=sm['spike_samples'],
+    view = dict(rate=DC.frac(sm['sample_rate']), n_amplitudes=len(sm['amplitudes']),
                 sc=sm['spike_clusters'], st=sm['spike_templates'], n_templates=sm['n_templates'],
                 channel_map=sm['channel_mapping'], channel_probes=sm['channel_probes'], features=bool(sm['has_features']))
+    sec = ((case.get('spec') or {}).get('extra_npy') or {}).get('spikes.times.npy')
+    if sec is not None:
+        # the source gives its spike times in SECONDS (spikes.times.npy, no spike_times.npy): the times are an input
+        # of the export, the samples are computed by the model (round half to even of times*rate)
+        view['times_sec'] = [DC.frac(float(x)) for x in sec[1]]
+    else:
+        view['samples'] = sm['spike_samples']
     src = _dir_entries(ls[0]['hashes'], ls[0].get('npy'))
     qs = [dict(view, op='export', same_dir=False, force=bool(case.get('reexport')), label=case.get('label', ''),
                has_traces=has_traces(case), src=src, reexport=bool(case.get('reexport'))),
@@ -136,6 +196,13 @@ def judge(case, impl_res, ans):
         return 'SPEC: ALF conversion raised %s (%s) at %s on an in-domain dataset' % (
             impl_res['raised'], impl_res['msg'], impl_res['where'])
     ok = impl_res['ok']
+    if case.get('twice'):
+        # the conversion is a function of the source (convertFS has no state): converting again with the same
+        # creator must give what a freshly loaded model gives
+        if ok['twice_diff']:
+            return 'SPEC: a repeated conversion of the same model differs from the conversion of a freshly loaded model in %s' % (
+                ok['twice_diff'][:6])
+        return None
     sm = ok['src_model']
     label = case.get('label', '')
     res = ans['ok']['res']
@@ -174,9 +241,13 @@ def judge(case, impl_res, ans):
     t, s = arr('spikes.times'), arr('spikes.samples')
     if t is None or s is None or t['vals'] != sm['spike_times'] or s['vals'] != sm['spike_samples']:
         return 'SPEC: spikes.times / spikes.samples are not the source times in seconds / samples'
-    # times in seconds = samples / rate, exactly (the rational computed by the model, rounded once)
+    # times in seconds: the model's rationals — samples / rate (rounded once) for a source in samples, the source's own
+    # times for a source in seconds, whose samples are round-half-even(times * rate)
     if max([abs(x) for x in s['vals']] or [0]) < 2 ** 53 and t['vals'] != [DC.to_float(q) for q in mod['times']]:
-        return 'SPEC: spikes.times is not spikes.samples divided by the sampling rate'
+        return 'SPEC: spikes.times is not %s' % ('the spike times of the source (given in seconds)' if 'spikes.times.npy' in (
+            (case.get('spec') or {}).get('extra_npy') or {}) else 'spikes.samples divided by the sampling rate')
+    if s['vals'] != mod['samples']:
+        return 'SPEC: spikes.samples is not the samples of the source (round(times*rate) for a source in seconds)'
     # round trip
     for who in ('fresh', 'ret'):
         r = ok.get(who)
@@ -189,8 +260,9 @@ def judge(case, impl_res, ans):
             return 'SPEC: channel map of the %s model differs from the source (single probe)' % who
     # frame of the whole conversion, decided by the Lean executable on the two real listings
     if not frame['frame_ok']:
-        return 'SPEC: source files changed by the conversion: %s' % [
-            f for f in ok['src_changed'] if f not in SUBSET and f != 'temp_wh.dat']
+        return 'SPEC: source directory not preserved by the conversion: changed/added/removed %s%s' % (
+            [f for f in ok['src_changed'] if f not in SUBSET and f != 'temp_wh.dat'],
+            ', temp_wh.dat not deleted' if 'temp_wh.dat' in ok['listings'][-1]['hashes'] else '')
     # ---- correspondence: the directories computed by the model against the real ones ----
     after = ok['listings'][-1]['hashes']
     msrc = dict((n, tg) for n, tg in mod['src'])
@@ -223,6 +295,12 @@ def nontrivial(case):
 
 
 def tally(rep, case, impl_res, ans):
+    if case.get('twice'):
+        rep.count('same creator converts %d times (labels %s, factors %s)' % (
+            len(case['twice']), [x[0] for x in case['twice']], [x[1] for x in case['twice']]))
+        return
+    if 'spikes.times.npy' in ((case.get('spec') or {}).get('extra_npy') or {}):
+        rep.count('source spike times in seconds (sub-sample precision), rate %s' % case['spec']['sample_rate'])
     if case.get('ood'):
         res = (ans.get('ok') or {}).get('res') or []
         rep.count('out-of-domain %s: real %s, model %s' % (
@@ -257,6 +335,22 @@ def _n_clusters(spec):
     if sc is None or list(sc) == list(spec['spike_templates']):
         return len(spec['templates'])
     return max(sc) + 1
+
+
+def _seconds_layout(spec, i):
+    """Turn the source into one that gives its spike times in SECONDS with sub-sample precision: no spike_times.npy
+    but spikes.times.npy holding (k + f)/rate, f in {.25, .75, 0, .5}; exact .5 ties with a power-of-two rate.
+    Kept only when the float product times*rate rounds (half to even) to the integer the exact product rounds to."""
+    ks = spec['spike_samples']
+    rate = [1024., 32768., spec['sample_rate'], 4096.][(i // 8) % 4]
+    fr = [0.25, 0.75, 0.5, 0.0, 0.5]
+    times = sorted((k + (fr[(j + i) % 5] if j + 1 < len(ks) else 0.25)) / rate for j, k in enumerate(ks))
+    for t in times:
+        if round(Fraction(float(t)) * Fraction(rate)) != int(np.round(np.float64(t) * rate)):
+            return
+    spec['sample_rate'] = rate
+    spec['spike_samples'] = None
+    spec['extra_npy'] = dict(spec.get('extra_npy') or {}, **{'spikes.times.npy': ('float64', [float(t) for t in times])})
 
 
 def gen(tier, rng):
@@ -295,6 +389,8 @@ def gen(tier, rng):
             if i % 18 == 4:
                 extra['cluster_probes.npy'] = ('int32', [0] * ncl_)
             spec['extra_npy'] = extra
+        if i % 8 == 6:
+            _seconds_layout(spec, i)
         # labels incl. ones that occur inside ALF file names or look like extensions
         label = ['', 'probe00', '', 'a', 'raw', '', 'amps', 'npy', 'spikes', 'x.y', 'clusters'][i % 11]
         if i in (33, 211):
@@ -305,6 +401,13 @@ def gen(tier, rng):
                 yield dict(p=PID, spec=spec, factor=1, label='', temp_wh=True, rs=i, ood='source with clusters.channels.npy')
             else:
                 yield dict(p=PID, spec=spec, factor=1, label='a/b', temp_wh=True, rs=i, ood='label a/b')
+            continue
+        if i % 20 == 9:
+            # the same creator / the same loaded model converted two or three times, with a non-identity whitening
+            # matrix, other labels and other unit factors
+            spec2 = DC.dense_spec(rng, raw=(i % 4 == 1), feats=(i % 20 == 9), whiten=rng.pick(['diag', 'tri', 'tri+inv', 'diag+inv']),
+                                  curated=(i % 3 == 0))
+            yield dict(p=PID, spec=spec2, rs=i, twice=[[['', 1], ['probe00', 1]], [['', 1], ['', 2.5]], [['a', 2.5], ['b', 1], ['a', 2.5]]][(i // 7) % 3])
             continue
         yield dict(p=PID, spec=spec, factor=[1, 2.5][i % 2], label=label, temp_wh=(i % 4 == 0), rs=i,
                    reexport=(i % 5 == 2 and label == ''))
